@@ -230,10 +230,9 @@ class DomainParser:
             self.logger.warning("Received an action with no preconditions.")
             return
 
-        if preconditions_ast[0] != "and" and len(preconditions_ast[1:]) > 1:
-            raise SyntaxError(
-                f"Only accepting conjunctive preconditions! Action - {new_action.name} does not conform!"
-            )
+        if preconditions_ast[0] != "and":
+            # A body that is a single condition, e.g. (p ?x) or (not (p ?x)), is a conjunction of one element.
+            preconditions_ast = ["and", preconditions_ast]
 
         action_preconditions = CompoundPrecondition()
         self.preconditions_parser.parse(
